@@ -14,6 +14,25 @@ CHECKS = {
             "cap 2/3 on small graphs); the oracle compares the edge multiset of the returned walk with the assignment and watches the "
             "library's own ERROR log. Held-on-what-was-observed, not a proof.",
             "assignments stay inside the property's domain (balanced, one unit from the source, connected); " + TRUST, "DESIGN.md 4/C14"),
+    "C17": ("exploration", "runtime monitors on the public query methods over random query histories + BFS/SCC/brute-force oracles",
+            "Every answer of nodes_reachable/nodes_reaching/is_scc_edge/compute_edge_max_reachable_value/stDAG reachability properties is judged "
+            "against an own graph search at the moment it is returned, inside random interleaved query histories (cold and warm caches), and "
+            "earlier answers are re-judged at the end of the history; max-weight antichains are compared with a brute-force maximum and checked "
+            "for pairwise unreachability; bottleneck peeling is replayed step by step against a brute-force max-bottleneck. Thorough adds all "
+            "digraphs on 3 inner nodes (with self-loops) and 4 inner nodes (without).",
+            "antichain weights are non-negative integers with total < 2^32 (library capacity constant); " + TRUST, "DESIGN.md 4/C17"),
+    "C20": ("exploration", "runtime monitor on read_graphs return values/exceptions + generating-description oracle + independent mini-parser",
+            "Rendered multi-block files (varying headers, '#S' lines incl. duplicates, blank lines, tabs, number formats, zero-vertex blocks) are "
+            "parsed by the real read_graphs and compared block by block with the generating description (id, edges, exact float weights, "
+            "constraints in file order, stored n/m and width against an independent SCC-multigraph set-cover reference); every single-line "
+            "corruption of the stated kinds must raise ValueError; the repository's fixture files are compared with an independent mini-parser.",
+            "graphs have >=1 source and sink; comment lines only in headers; " + TRUST, "DESIGN.md 4/C20"),
+    "C12": ("exploration", "runtime min/max probing of the real SolverWrapper helpers + read-back of HiGHS column bounds/costs + z3 shadow model over call histories",
+            "For complete finite grids of bounds and admissible value pairs the product/y variable is minimised and maximised with the inputs "
+            "fixed (min=max=named function value means exactly one admitted point; every admissible pair must be feasible); queued bound "
+            "updates, objective replacement and get_values are read back from HiGHS; random call histories are mirrored in a shadow model "
+            "whose exact optimum comes from z3. Exhaustive over the listed grids, sampled over histories.",
+            "admissibility read literally from the helper docstrings; within one batch a variable receives one kind of queued request with one value (possibly repeated) so that the requested bounds are unambiguous; " + TRUST, "DESIGN.md 4/C12"),
 }
 
 NOT_YET = {}
